@@ -9,3 +9,11 @@ pub mod common;
 mod c02;
 #[cfg(kani)]
 mod c03;
+#[cfg(kani)]
+mod c11;
+#[cfg(kani)]
+mod c12;
+#[cfg(kani)]
+mod c13;
+#[cfg(kani)]
+mod c15;
